@@ -697,6 +697,19 @@ func (e *SpecEnv) trCall(x *ECall) (TV, error) {
 			return TV{}, fmt.Errorf("unknown class %q", lit.V)
 		}
 		return TV{classRunApp(vc, body, args[0].T, false), tyString}, nil
+	case "runLen": // runLen(s, "idch"|"space"): the length of the maximal prefix of s made of characters of the class
+		if err := need(2); err != nil {
+			return TV{}, err
+		}
+		lit, ok := x.Args[1].(*EStr)
+		if !ok {
+			return TV{}, fmt.Errorf("runLen needs a literal class name")
+		}
+		body := map[string]string{"idch": "A-Za-z0-9-.", "space": " "}[lit.V]
+		if body == "" {
+			return TV{}, fmt.Errorf("unknown class %q", lit.V)
+		}
+		return TV{runLenApp(vc, body, args[0].T), tyInt}, nil
 	case "inRe": // inRe(s, "idch*") etc: fixed regular languages
 		if err := need(2); err != nil {
 			return TV{}, err
